@@ -55,10 +55,13 @@ func builtinNumberToFixed(call FunctionCall) Value {
 	if 20 < precision || 0 > precision {
 		panic(call.runtime.panicRangeError("toFixed() precision must be between 0 and 20"))
 	}
-	if call.This.IsNaN() {
+	// 15.7.4.5 step 3: "this Number value" (a TypeError for any other receiver;
+	// the methods of Number.prototype are not generic).
+	this := call.thisClassObject(classNumberName).primitiveValue()
+	if this.IsNaN() {
 		return stringValue("NaN")
 	}
-	value := call.This.float64()
+	value := this.float64()
 	if math.Abs(value) >= 1e21 {
 		return stringValue(floatToString(value, 64))
 	}
@@ -88,10 +91,10 @@ func builtinNumberToFixed(call FunctionCall) Value {
 }
 
 func builtinNumberToExponential(call FunctionCall) Value {
-	if call.This.IsNaN() {
-		return stringValue("NaN")
-	}
-	number := call.This.float64()
+	// 15.7.4.6 steps 1-3: this Number value, then ToInteger(fractionDigits),
+	// and only then the NaN case.
+	this := call.thisClassObject(classNumberName).primitiveValue()
+	number := this.float64()
 	if number == 0 {
 		number = 0 // ES5 15.7.4.6 step 4: -0 is not negative
 	}
@@ -99,6 +102,9 @@ func builtinNumberToExponential(call FunctionCall) Value {
 	fractionDigits := call.Argument(0)
 	if fractionDigits.IsDefined() {
 		precision = toIntegerFloat(fractionDigits)
+	}
+	if math.IsNaN(number) {
+		return stringValue("NaN")
 	}
 	if math.IsInf(number, 0) {
 		// ES5 15.7.4.6 step 6, before the range check of step 7.
@@ -111,18 +117,21 @@ func builtinNumberToExponential(call FunctionCall) Value {
 }
 
 func builtinNumberToPrecision(call FunctionCall) Value {
-	if call.This.IsNaN() {
-		return stringValue("NaN")
-	}
+	// 15.7.4.7 steps 1-4: this Number value; undefined precision gives
+	// ToString(x); ToInteger(precision) comes before the NaN case.
+	this := call.thisClassObject(classNumberName).primitiveValue()
 	value := call.Argument(0)
 	if value.IsUndefined() {
-		return stringValue(call.This.string())
+		return stringValue(this.string())
 	}
-	number := call.This.float64()
+	number := this.float64()
 	if number == 0 {
 		number = 0 // ES5 15.7.4.7 step 5: -0 is not negative
 	}
 	precision := toIntegerFloat(value)
+	if math.IsNaN(number) {
+		return stringValue("NaN")
+	}
 	if math.IsInf(number, 0) {
 		// ES5 15.7.4.7 step 7, before the range check of step 8.
 		return stringValue(floatToString(number, 64))
